@@ -213,7 +213,7 @@ PROPS = {
         trusted=STD_TRUST,
     ),
     "C06": dict(
-        units=["parse"],
+        units=["parse", "serde"],
         level="proof",
         min_obligations=40,
         replay_family="c06",
@@ -233,7 +233,10 @@ PROPS = {
                     "Read errors: a ghost flag `failed()` is raised by the stream model when the underlying iterator yields Err; every function that touches "
                     "the source carries io_ok(result, failed_before, failed_after): a failure raised during the call makes the call return Err, and an "
                     "I/O-category error is only ever produced when the source failed - so a read failure is never turned into a value or into end of input, "
-                    "for all byte streams and all failure points.",
+                    "for all byte streams and all failure points. The serde companion crate's view of such an error (unit serde, serde-lexpr/src/error.rs): "
+                    "From<io::Error> / From<parse::Error> wrap the error unchanged, Error::classify maps the parser's category Io / Eof / Syntax to the same "
+                    "category, and From<serde_lexpr::Error> for io::Error is total (its unreachable!() arm is proved dead; before fix 9b371ba it was reachable "
+                    "for exactly the read-failure case, D16).",
         assumptions=[
             "std::io::Bytes<R> (splitting into read calls, retry on Interrupted) is std code: modelled by trait ByteIter (prophetic `ahead`, `gone`, `broken`), "
             "ASSUMED: an Err item delivers no byte and loses none, None is only reported when nothing is ahead, fewer than usize::MAX bytes are delivered",
